@@ -14,6 +14,7 @@ package nebula
 // Afterwards the withheld genuine packet must still be accepted (mutants did not poison the window).
 
 import (
+	"bytes"
 	"encoding/binary"
 	"fmt"
 	"net/netip"
@@ -35,6 +36,9 @@ func c14Mutants(rng interface{ IntN(int) int }, g *vnPacket, others []*vnPacket,
 	var out []c14Mut
 	foreign := netip.MustParseAddrPort("198.51.100.77:4000")
 	add := func(kind string, d []byte) {
+		if bytes.Equal(d, g.Data) {
+			return // two flips of the same bit (or a rewrite to the same value): not a modification
+		}
 		from := g.From
 		if rng.IntN(4) == 0 {
 			from = foreign
